@@ -1,0 +1,22 @@
+//go:build verif
+
+// Contracts for contract-based deductive verification (checked by /verif/govc).
+// This file is comment-only and compiled only with the build tag "verif".
+
+package topologyaware
+
+// ---- C09: releasing a container's resources forgets its grant and re-pins the containers it shared CPUs with ------
+// (pool-tree dumps and the allocation self-check only read the policy state and log)
+//@ effect (*policy).checkAllocations noop
+//@ iface github.com/containers/nri-plugins/cmd/plugins/topology-aware/policy.Node.Dump
+//@   modifies nothing
+//@ func (*policy).ReleaseResources tags=C09
+//@   requires p != nil && container != nil && p.cache != nil && p.allocations.grants != nil && opt != nil && rtOK() && grantsOK(p)
+//@   requires ctrID(container) in p.allocations.grants ==> releasable(gr(p.allocations.grants[ctrID(container)])) && libmem.idle(nPolicy(gr(p.allocations.grants[ctrID(container)]).node).memAllocator)
+//@   # the grant stored under the container's id is the container's own grant; a container without a grant has none under another id
+//@   requires ctrID(container) in p.allocations.grants ==> gr(p.allocations.grants[ctrID(container)]).container == container
+//@   requires !(ctrID(container) in p.allocations.grants) ==> (forall id string :: id in p.allocations.grants ==> gr(p.allocations.grants[id]).container != container)
+//@   ensures[C09] result == nil && !(ctrID(container) in p.allocations.grants)
+//@   ensures[C09] forall id string :: id != ctrID(container) ==> (id in p.allocations.grants) == old(id in p.allocations.grants) && p.allocations.grants[id] == old(p.allocations.grants[id])
+//@   # the released container itself is told nothing any more
+//@   ensures[C09] rtCpusW[container] == old(rtCpusW[container]) && rtSharesW[container] == old(rtSharesW[container]) && rtMemsW[container] == old(rtMemsW[container])
